@@ -71,6 +71,12 @@ def pick_factor(rng):
 
 # ------------------------------------------------------------------------------------------
 # part A: the five public rule functions
+def pick_factor_cfg(rng):
+    """factor handed to the HomogenizationParameters constructor in parts B / C: inside the documented
+    range [1, 2] (what the constructor does outside it is the subject of part D)"""
+    return float(rng.choice([1.0, 2.0, 1.5, float(np.round(rng.uniform(1, 2), 3))], p=[0.3, 0.25, 0.15, 0.3]))
+
+
 def gen_A(rng, quick):
     kind = str(rng.choice(['exact', 'physical', 'spread', 'equal', 'onehot', 'extreme', 'undefined'],
                           p=[0.2, 0.2, 0.15, 0.08, 0.1, 0.07, 0.2]))
@@ -396,7 +402,7 @@ def gen_steps(rng, db, npts, same_x, modes_p, max_excl):
             args = str(rng.choice(db))
         elif mode == 'exclude':
             args = [str(x) for x in rng.choice(db, int(rng.integers(1, max_excl + 1)), replace=False)]
-        st = {'rule': int(rng.integers(0, 5)), 'n': pick_factor(rng), 'mode': mode, 'args': args}
+        st = {'rule': int(rng.integers(0, 5)), 'n': pick_factor_cfg(rng), 'mode': mode, 'args': args}
         if rng.random() < 0.4:
             n = int(rng.integers(2, 5))
             pts = [int(x) for x in rng.integers(0, npts, n)]
@@ -868,6 +874,248 @@ def shrink_B(c, clause, cls, idx):
 
 
 # ------------------------------------------------------------------------------------------
+# part D: the configuration layer - HomogenizationParameters(...) and its setters, and the
+# HomogenizationModel methods that forward to them.  Whatever route the user takes, the rule, the
+# labyrinth factor and the post-processing that reach computeHomogenizationFunction must be the ones
+# asked for, and no route may let a labyrinth factor through with which the rule exceeds upper Wiener.
+RULE_STR = ['wiener upper', 'wiener lower', 'hashin upper', 'hashin lower', 'lab']
+RULE_ALT = ['upper wiener', 'lower wiener', 'upper hashin', 'lower hashin', 'labyrinth']    # spellings of the docstrings
+MODES = ['none', 'predefined', 'majority', 'exclude']
+ROUTE = {('params', 'rule'): 'HomogenizationParameters.setHomogenizationFunction',
+         ('model', 'rule'): 'HomogenizationModel.setMobilityFunction',
+         ('params', 'lab'): 'HomogenizationParameters.setLabyrinthFactor',
+         ('model', 'lab'): 'HomogenizationModel.setLabyrinthFactor',
+         ('params', 'post'): 'HomogenizationParameters.setPostProcessFunction',
+         ('model', 'post'): 'HomogenizationModel.setMobilityPostProcessFunction'}
+
+
+def gen_post(rng):
+    mode = int(rng.integers(0, 4))
+    args = None
+    if mode == 1:
+        args = str(rng.choice(POOL[:3]))
+    elif mode == 3:
+        args = [str(x) for x in rng.choice(POOL[:3], int(rng.integers(1, 3)), replace=False)]
+    return {'mode': mode, 'mode_as': str(rng.choice(['str', 'id'])), 'args': args}
+
+
+def gen_D(rng, quick):
+    p = int(rng.choice([2, 3, 4]))
+    e = int(rng.integers(1, 3))
+    fr = simplex(rng, p, str(rng.choice(['exact', 'dirichlet'])))
+    mob = 10 ** (rng.uniform(-24, -16, (1, e)) + rng.uniform(-1.5, 1.5, (p, e)))
+    if rng.random() < 0.3:
+        mob = (2.0 ** rng.integers(-8, 3, (p, e))).astype(float)
+    ctor = {'default': bool(rng.random() < 0.2)}
+    if not ctor['default']:
+        ctor.update(rule=int(rng.integers(0, 5)), rule_as=str(rng.choice(['str', 'alt', 'id'])))
+        if rng.random() < 0.15:       # outside the documented range of the constructor argument
+            ctor['n'] = float(rng.choice([0.5, 0.999, 0.0, 3.0]))
+        else:
+            ctor['n'] = float(rng.choice([1.0, 2.0, 1.5, float(np.round(rng.uniform(1, 2), 3))]))
+        ctor.update(gen_post(rng))
+    ops = []
+    for _ in range(int(rng.integers(0, 5))):
+        via = str(rng.choice(['params', 'model']))
+        op = str(rng.choice(['rule', 'lab', 'post'], p=[0.3, 0.45, 0.25]))
+        o = {'via': via, 'op': op}
+        if op == 'rule':
+            o.update(rule=int(rng.integers(0, 5)), rule_as=str(rng.choice(['str', 'alt', 'id'])))
+        elif op == 'lab':
+            n = rng.choice([1.0, 2.0, 1.5, 0.999, 0.5, 0.0, -1.0, 3.0, 7.5, float(np.round(rng.uniform(0, 3), 3))])
+            o['n'] = float(n)
+            o['int'] = bool(float(n).is_integer() and rng.random() < 0.5)      # handed over as a Python int
+        else:
+            o.update(gen_post(rng))
+        ops.append(o)
+    return {'part': 'D', 'p': p, 'e': e, 'fr': fr, 'mob': [[float(x) for x in r] for r in mob], 'ctor': ctor, 'ops': ops}
+
+
+def rule_arg(o, HP):
+    ids = [HP.WIENER_UPPER, HP.WIENER_LOWER, HP.HASHIN_UPPER, HP.HASHIN_LOWER, HP.LABYRINTH]
+    return ids[o['rule']] if o['rule_as'] == 'id' else (RULE_STR if o['rule_as'] == 'str' else RULE_ALT)[o['rule']]
+
+
+def post_arg(o, HP):
+    ids = [HP.NO_POST, HP.PREDEFINED, HP.MAJORITY, HP.EXCLUDE]
+    return ids[o['mode']] if o['mode_as'] == 'id' else MODES[o['mode']]
+
+
+def run_impl_D(c):
+    H, funcs = kawin_rules()
+    from kawin.diffusion import HomogenizationModel
+    HP = H.HomogenizationParameters
+    posts = [H._postProcessDoNothing, H._postProcessPredefinedMatrixPhase, H._postProcessMajorityPhase, H._postProcessExcludePhases]
+    out = {'err': None}
+    try:
+        ct = c['ctor']
+        if ct['default']:
+            model = HomogenizationModel([-1e-3, 1e-3], 5, ['NI', 'CR'], ['FCC_A1', 'BCC_A2'])
+            hp = model.homogenizationParameters
+        else:
+            hp = HP(rule_arg(ct, HP), labyrinthFactor=ct['n'], postProcessFunction=post_arg(ct, HP), postProcessArgs=ct['args'])
+            model = HomogenizationModel([-1e-3, 1e-3], 5, ['NI', 'CR'], ['FCC_A1', 'BCC_A2'], homogenizationParameters=hp)
+        for o in c['ops']:
+            tgt = hp if o['via'] == 'params' else model
+            if o['op'] == 'rule':
+                (tgt.setHomogenizationFunction if o['via'] == 'params' else tgt.setMobilityFunction)(rule_arg(o, HP))
+            elif o['op'] == 'lab':
+                tgt.setLabyrinthFactor(int(o['n']) if o.get('int') else o['n'])
+            else:
+                (tgt.setPostProcessFunction if o['via'] == 'params' else tgt.setMobilityPostProcessFunction)(post_arg(o, HP), o['args'])
+        fin_hp = model.homogenizationParameters
+        out['same_object'] = fin_hp is hp
+        out['rule'] = [i for i, f in enumerate(funcs) if fin_hp.homogenizationFunction is f]
+        out['mode'] = [i for i, f in enumerate(posts) if fin_hp.postProcessFunction is f]
+        out['args'] = list(fin_hp.postProcessParameters)
+        out['factor'] = float(fin_hp.labyrinthFactor)
+        mob = np.array(c['mob'], dtype=np.float64).reshape(c['p'], c['e'])
+        fr = np.array(c['fr'], dtype=np.float64)
+        with np.errstate(all='ignore'):
+            out['val'] = np.atleast_1d(fin_hp.homogenizationFunction(mob, fr, labyrinth_factor=fin_hp.labyrinthFactor)).astype(float).tolist()
+            out['lab'] = np.atleast_1d(H.labyrinth(mob, fr, labyrinth_factor=fin_hp.labyrinthFactor)).astype(float).tolist()
+            out['wu'] = np.atleast_1d(H.wienerUpper(mob, fr)).astype(float).tolist()
+            out['pf'] = np.power(fr, fin_hp.labyrinthFactor).tolist()
+    except Exception as ex:
+        out['err'] = type(ex).__name__ + ': ' + str(ex)
+    return out
+
+
+def intent_D(c):
+    """what the user asked for, by the last call for each option: (rule, route), (factor handed
+    over, route), (mode, args, route)"""
+    ct = c['ctor']
+    rule, fac, post = (0, 'constructor (default)'), (1.0, 'constructor (default)'), (0, None, 'constructor (default)')
+    if not ct['default']:
+        rule, fac, post = (ct['rule'], 'constructor'), (ct['n'], 'constructor'), (ct['mode'], ct['args'], 'constructor')
+    for o in c['ops']:
+        r = ROUTE[(o['via'], o['op'])]
+        if o['op'] == 'rule':
+            rule = (o['rule'], r)
+        elif o['op'] == 'lab':
+            fac = (o['n'], r)
+        else:
+            post = (o['mode'], o['args'], r)
+    return rule, fac, post
+
+
+def oracle_D(c, out):
+    """returns list of (clause, cls, msg)"""
+    if out['err']:
+        return [('no_internal_error', 'configuration raised', 'configuring the homogenization raised ' + out['err'])]
+    v = []
+    (rule, rroute), (n, froute), (mode, args, proute) = intent_D(c)
+    if out['rule'] != [rule]:
+        v.append(('configured_rule', rroute, 'asked for %s through %s, the configured function is %s' % (
+            RULES[rule], rroute, [RULES[i] for i in out['rule']] or 'none of the five rules')))
+    if out['mode'] != [mode] or out['args'] != [args]:
+        v.append(('configured_post', proute, "asked for post-processing '%s' %r through %s, configured: %s %r" % (
+            MODES[mode], args, proute, [MODES[i] for i in out['mode']], out['args'])))
+    if not out['same_object']:
+        v.append(('configured_rule', 'model does not use the parameter object it was given', 'HomogenizationModel holds another HomogenizationParameters object than the one passed in'))
+    # the labyrinth rule with the factor that is now configured: never above upper Wiener, equal at 1
+    kind = 'factor 1' if n == 1 else 'factor < 1' if n < 1 else 'factor > 2' if n > 2 else 'factor in (1, 2]'
+    for j, (lab, wu) in enumerate(zip(out['lab'], out['wu'])):
+        if not (lab <= wu * (1 + 1e-12)):
+            v.append(('labyrinth_le_upper', '%s via %s' % (kind, froute),
+                      'labyrinth factor %r handed to %s: the configured factor is %r and the labyrinth rule gives %r > upper Wiener %r (fractions %r, mobilities %r)'
+                      % (n, froute, out['factor'], lab, wu, c['fr'], [r[j] for r in c['mob']])))
+            break
+        if n == 1 and lab != wu:
+            v.append(('labyrinth_one', 'factor 1 via %s' % froute,
+                      'labyrinth factor 1 handed to %s: labyrinth %r differs from upper Wiener %r' % (froute, lab, wu)))
+            break
+    return v
+
+
+def post_term(mode, args):
+    if mode == 0:
+        return 'PNone'
+    if mode == 1:
+        return '(PPredefined %s)' % natlit(POOL.index(args))
+    if mode == 2:
+        return 'PMajority'
+    return '(PExclude [%s])' % '; '.join(natlit(POOL.index(a)) for a in args)
+
+
+def in_model_D(c):
+    """the model's constructor stores its argument; the theorems assume the documented range"""
+    return c['ctor']['default'] or 1 <= c['ctor']['n'] <= 2
+
+
+def model_term_D(c, out):
+    ct = c['ctor']
+    c0 = 'mkC WienerUpper (1 # 1) PNone' if ct['default'] else 'mkC %s %s %s' % (RULES[ct['rule']], qlit(ct['n']), post_term(ct['mode'], ct['args']))
+    ops = []
+    for o in c['ops']:
+        if o['op'] == 'rule':
+            ops.append('opRule %s' % RULES[o['rule']])
+        elif o['op'] == 'lab':
+            ops.append('opLab %s' % qlit(o['n']))
+        else:
+            ops.append('opPost %s' % post_term(o['mode'], o['args']))
+    return 'check17d %s tinyB maxfB (%s) [%s] %s %s %s %s %s %s' % (
+        RT, c0, '; '.join(ops), qlit(out['factor']), pw_term(out['factor'], c['fr'], out['pf']), natlit(c['e']),
+        qlistlist(c['mob']), qlist(c['fr']), qlist(fin(out['val'])))
+
+
+def post_obs(mode, args):
+    if mode == 0:
+        return 'PNone'
+    if mode == 1:
+        return ('PPredefined', POOL.index(args))
+    if mode == 2:
+        return 'PMajority'
+    return ('PExclude', [POOL.index(a) for a in args])
+
+
+def compare_D(c, out, mod):
+    mrule, feq, mpost, (deg, verdict) = mod
+    dis = []
+    if [mrule] != [RULES[i] for i in out['rule']]:
+        dis.append('configured rule: implementation %s, model %s' % ([RULES[i] for i in out['rule']], mrule))
+    if not feq:
+        dis.append('configured labyrinth factor: implementation %r differs from the model (np.clip(n, 1, 2) of the last factor set)' % out['factor'])
+    try:
+        obs = post_obs(out['mode'][0], out['args'][0]) if len(out['mode']) == 1 and len(out['args']) == 1 else None
+    except Exception:
+        obs = None
+    if obs != mpost:
+        dis.append('configured post-processing: implementation %r %r, model %r' % (out['mode'], out['args'], mpost))
+    if not dis and not deg:
+        if not np.all(np.isfinite(out['val'])):
+            dis.append('configured rule returned %r' % out['val'])
+        elif verdict is not None:
+            k, ap = verdict[1]
+            dis.append('configured rule value[%d]: implementation %r, model %r' % (k, out['val'][k], float(tofrac(ap))))
+    return dis, 1 if deg else 0
+
+
+def nontrivial_D(c):
+    labs = [o for o in c['ops'] if o['op'] == 'lab']
+    return any(not (1 <= o['n'] <= 2) for o in labs) or len(set((o['via'], o['op']) for o in c['ops'])) >= 2
+
+
+def shrink_D(c, clause, cls):
+    def fails(d):
+        return any(h[0] == clause and h[1] == cls for h in oracle_D(d, run_impl_D(d)))
+    cur = c
+    changed = True
+    while changed:
+        changed = False
+        for k in range(len(cur['ops'])):
+            d = dict(cur, ops=cur['ops'][:k] + cur['ops'][k + 1:])
+            if fails(d):
+                cur, changed = d, True
+                break
+    for j in range(cur['e']):
+        d = dict(cur, e=1, mob=[[r[j]] for r in cur['mob']])
+        if fails(d):
+            return d
+    return cur
+
+
+# ------------------------------------------------------------------------------------------
 def corpus_cases():
     out = []
     p = os.path.join(VERIF, 'corpus', 'C17')
@@ -893,6 +1141,12 @@ def explore(ctx, cases, label):
             if out['err'] is None:
                 terms.append(model_term_A(c, out))
                 idx.append(i)
+        elif c['part'] == 'D':
+            out = run_impl_D(c)
+            outs.append(out)
+            if out['err'] is None and in_model_D(c):
+                terms.append(model_term_D(c, out))
+                idx.append(i)
         else:
             out = run_impl_B(c)
             outs.append(out)
@@ -914,6 +1168,21 @@ def explore(ctx, cases, label):
             else:
                 dis, ndeg = ['rule function raised ' + out['err']], 0
             for h in oracle_A(c, out):
+                hits.append((c, h[0], h[1], None, h[2]))
+        elif c['part'] == 'D':
+            ctx.count(c, nontrivial_D(c))
+            ctx.hist('part', 'D')
+            for o in c['ops']:
+                ctx.hist('setter', ROUTE[(o['via'], o['op'])])
+                if o['op'] == 'lab':
+                    ctx.hist('factor handed to a setter', '<1' if o['n'] < 1 else '>2' if o['n'] > 2 else 'in [1,2]')
+            if i in mods:
+                dis, ndeg = compare_D(c, out, mods[i])
+            else:
+                dis, ndeg = (['configuration raised ' + out['err']] if out['err'] else []), 0
+                if not out['err']:
+                    ctx.notes['constructor_factor_outside_documented_range'] = ctx.notes.get('constructor_factor_outside_documented_range', 0) + 1
+            for h in oracle_D(c, out):
                 hits.append((c, h[0], h[1], None, h[2]))
         else:
             ctx.count(c, nontrivial_B(c))
@@ -947,12 +1216,15 @@ def report_hits(ctx, hits):
         if c['part'] == 'A':
             small = shrink_A(c, clause, cls)
             msgs = [h[2] for h in oracle_A(small, run_impl_A(small)) if h[0] == clause and h[1] == cls]
+        elif c['part'] == 'D':
+            small = shrink_D(c, clause, cls)
+            msgs = [h[2] for h in oracle_D(small, run_impl_D(small)) if h[0] == clause and h[1] == cls]
         else:
             small = shrink_B(c, clause, cls, idx)
             msgs = [h[3] for h in oracle_B(small, run_impl_B(small)) if h[0] == clause and h[1] == cls]
         ctx.violation(clause, {'site': SITE, 'cls': cls},
-                      {'kind': 'input' if c['part'] == 'A' else 'history', 'input': small, 'observed': msgs[0] if msgs else msg,
-                       'oracle': 'property text evaluated on the implementation outputs (harness/c17.py: oracle_%s)' % ('A' if c['part'] == 'A' else 'B')},
+                      {'kind': 'input' if c['part'] == 'A' else 'history' if c['part'] != 'D' else 'configuration history', 'input': small, 'observed': msgs[0] if msgs else msg,
+                       'oracle': 'property text evaluated on the implementation outputs (harness/c17.py: oracle_%s)' % (c['part'] if c['part'] in ('A', 'D') else 'B')},
                       msgs[0] if msgs else msg)
 
 
@@ -965,23 +1237,26 @@ def run(ctx):
                        'thermodynamics (2-5 database phases, 1-4 stable composition sets per point in an order unrelated to the database '
                        'order, phases without mobility model), histories of 2-5 computeHomogenizationFunction calls with one hash table, '
                        'all rules and post-processing modes, repeated steps; non-trivial when a named phase sits at a different position '
-                       'among the stable phases than in the database (or is not stable) or a point is evaluated twice or an array holds neighbouring entries of equal composition and different temperature. A point is a (composition, temperature) pair, compositions occur at several temperatures; 40 % of the steps pass ARRAYS of 2-5 points (flat segments of a profile with a temperature gradient, repeated (x, T) pairs, one composition broadcast over an array of temperatures, computeMobility on the array); every entry is compared with the single-point evaluation on a fresh object, with the same array on a fresh object, and with the [min, max] of the own phase mobilities of that node. part C: the same histories against pycalphad on the Ni-Cr-Al and Fe-Cr-Ni databases of kawin\'s tests (both orders of the phase list, random compositions, T = 1073/1173/1273 K; the backend data shipped to the model come from a cache-free _computeSingleMobility call). distinct by hash of the exact input')
+                       'among the stable phases than in the database (or is not stable) or a point is evaluated twice or an array holds neighbouring entries of equal composition and different temperature. A point is a (composition, temperature) pair, compositions occur at several temperatures; 40 % of the steps pass ARRAYS of 2-5 points (flat segments of a profile with a temperature gradient, repeated (x, T) pairs, one composition broadcast over an array of temperatures, computeMobility on the array); every entry is compared with the single-point evaluation on a fresh object, with the same array on a fresh object, and with the [min, max] of the own phase mobilities of that node. part C: the same histories against pycalphad on the Ni-Cr-Al and Fe-Cr-Ni databases of kawin\'s tests (both orders of the phase list, random compositions, T = 1073/1173/1273 K; the backend data shipped to the model come from a cache-free _computeSingleMobility call). part D: configuration histories - HomogenizationParameters constructed by string / alternative spelling / ID (or the default of HomogenizationModel), then 0-4 setter calls on the parameter object or through HomogenizationModel (setMobilityFunction, setLabyrinthFactor with factors below 1, in [1, 2], above 2, int or float, setMobilityPostProcessFunction); the configured rule / factor / post-processing are compared with the model and the configured labyrinth rule with upper Wiener on a defined matrix; non-trivial when a factor outside [1, 2] is handed to a setter or two different setters are used. distinct by hash of the exact input')
     t0 = time.time()
     axioms, failed = ctx.prove(['C17/Properties.v'])
     ctx.notes.setdefault('timing_s', {})['prove'] = round(time.time() - t0, 1)
     t0 = time.time()
-    nA, nB, nC = (260, 120, 30) if quick else (4000, 2000, 500)
+    nA, nB, nC, nD = (260, 120, 30, 150) if quick else (4000, 2000, 500, 3000)
     cases = corpus_cases()
     cases += [gen_A(ctx.rng, quick) for _ in range(nA)] + [gen_B(ctx.rng, quick) for _ in range(nB)] + [gen_C(ctx.rng, quick) for _ in range(nC)]
+    cases += [gen_D(ctx.rng, quick) for _ in range(nD)]
     ctx.notes['timing_s']['generate'] = round(time.time() - t0, 1)
     dis, hits = explore(ctx, cases, 'main')
     report_hits(ctx, hits)
     if (dis or failed) and not hits:
-        more = [gen_A(ctx.rng, quick) for _ in range(1500)] + [gen_B(ctx.rng, quick) for _ in range(800)] + [gen_C(ctx.rng, quick) for _ in range(100)]
+        more = [gen_A(ctx.rng, quick) for _ in range(1500)] + [gen_B(ctx.rng, quick) for _ in range(800)] + [gen_C(ctx.rng, quick) for _ in range(100)] + [gen_D(ctx.rng, quick) for _ in range(1000)]
         hits2 = []
         for c in more:
             if c['part'] == 'A':
                 hits2 += [(c, h[0], h[1], None, h[2]) for h in oracle_A(c, run_impl_A(c))]
+            elif c['part'] == 'D':
+                hits2 += [(c, h[0], h[1], None, h[2]) for h in oracle_D(c, run_impl_D(c))]
             else:
                 hits2 += [(c, h[0], h[1], h[2], h[3]) for h in oracle_B(c, run_impl_B(c))]
         ctx.cov['evaluations'] += len(more)
@@ -1006,6 +1281,7 @@ def run(ctx):
         'np.finfo(float64).tiny / .max enter the model as parameters; cases in which the exact model leaves the binary64 range or divides by zero (all fractions excluded) are counted as indeterminate, not compared',
         'bounds and ordering are claimed (and checked by the oracle) for fully defined mobilities only, as the property states; with undefined entries only correspondence, permutation invariance and the labyrinth clauses are checked',
         'the thermodynamics object of part B is scripted (pycalphad is not run): what is tied is _computeSingleMobility + the post-processing + the rule + the hash-table protocol; in part C pycalphad runs and the equilibrium / mobility values of a cache-free call are taken as the backend oracle (their correctness belongs to C09/C10)',
+        'part D: the constructor argument labyrinthFactor is documented as between 1 and 2; the model stores it as given and the configuration theorems assume that range; constructor values outside it are evaluated by the oracle only',
         'the hand-written model coq/C17/Model.v is tied to the code only through this correspondence']
     ctx.cov['trusted_base'] += ['Coq 8.16.1 kernel and vm_compute', 'hand-written model coq/C17/Model.v + correspondence driver coq/C17/Corr.v + harness/c17.py',
                                 'float -> Q transport (float.as_integer_ratio) and output parser in harness/common.py']
@@ -1015,6 +1291,8 @@ def replay(ctx, obj):
     c = obj['input']
     if c['part'] == 'A':
         hits = [(h[0], h[1], h[2]) for h in oracle_A(c, run_impl_A(c))]
+    elif c['part'] == 'D':
+        hits = [(h[0], h[1], h[2]) for h in oracle_D(c, run_impl_D(c))]
     else:
         hits = [(h[0], h[1], h[3]) for h in oracle_B(c, run_impl_B(c))]
     for h in hits:
